@@ -497,6 +497,17 @@ func c12Cursors(c *fw.Case, r *rand.Rand, prod bool, seg, outInit uint64) {
 								c.Violation("C12/cursor/undo-without-fork", fmt.Sprintf("cursor not on a forked block but undo signal %v was produced", undo), w)
 								return
 							}
+							// the cursor's block is still on the chain: a "new" cursor restarts right after it, an "undo" cursor AT it
+							// (the client was told to drop that block, it has to be sent again)
+							want := blockNum + 1
+							if step == bstream.StepUndo {
+								want = blockNum
+							}
+							if (step == bstream.StepNew || step == bstream.StepUndo) && startNum != want {
+								c.Violation("C12/cursor/canonical-restart", fmt.Sprintf("%s cursor on block %d, still on the chain: restart at %d, expected %d", step, blockNum, startNum, want), w)
+								return
+							}
+							c.Count("canonical_cursors_checked", 1)
 						}
 					}
 				}
